@@ -4,6 +4,636 @@ From Verif Require Import Lib.Sx Model.ClientTree.
 Import ListNotations.
 Open Scope Z_scope.
 
+(* ================================================================== *)
+(* names and association lists                                          *)
+
+Lemma name_eqb_eq a b : name_eqb a b = true <-> a = b.
+Proof.
+  revert b; induction a as [|x a IH]; intros [|y b]; simpl; split; intro H; try discriminate; auto.
+  - apply andb_true_iff in H as [H1 H2]. apply Z.eqb_eq in H1. apply IH in H2. congruence.
+  - inversion H; subst. rewrite Z.eqb_refl. simpl. apply IH. reflexivity.
+Qed.
+
+Lemma name_eqb_refl a : name_eqb a a = true.
+Proof. apply name_eqb_eq. reflexivity. Qed.
+
+Lemma name_eqbP a b : reflect (a = b) (name_eqb a b).
+Proof.
+  destruct (name_eqb a b) eqn:E; constructor.
+  - apply name_eqb_eq; assumption.
+  - intro H. apply name_eqb_eq in H. congruence.
+Qed.
+
+Lemma name_eqb_sym a b : name_eqb a b = name_eqb b a.
+Proof. destruct (name_eqbP a b), (name_eqbP b a); congruence. Qed.
+
+Lemma assoc_set_child n m v l :
+  assoc n (set_child m v l) = if name_eqb n m then Some v else assoc n l.
+Proof.
+  induction l as [|[k t] l IH]; simpl.
+  - destruct (name_eqb n m); reflexivity.
+  - destruct (name_eqbP m k) as [->|Hmk]; simpl.
+    + destruct (name_eqbP n k); reflexivity.
+    + rewrite IH. destruct (name_eqbP n k) as [->|Hnk]; [|reflexivity].
+      destruct (name_eqbP k m); congruence.
+Qed.
+
+Lemma set_child_same n c l : assoc n l = Some c -> set_child n c l = l.
+Proof.
+  induction l as [|[k t] l IH]; simpl; [discriminate|].
+  destruct (name_eqbP n k) as [->|H]; intro E.
+  - congruence.
+  - rewrite IH; auto.
+Qed.
+
+Lemma set_child_twice n v w l : set_child n w (set_child n v l) = set_child n w l.
+Proof.
+  induction l as [|[k t] l IH]; simpl.
+  - rewrite name_eqb_refl. reflexivity.
+  - destruct (name_eqbP n k) as [->|H]; simpl.
+    + rewrite name_eqb_refl. reflexivity.
+    + destruct (name_eqbP n k); [contradiction|]. rewrite IH. reflexivity.
+Qed.
+
+Lemma child_or_set_child n v l : child_or n (set_child n v l) = v.
+Proof. unfold child_or. rewrite assoc_set_child, name_eqb_refl. reflexivity. Qed.
+
+Lemma assoc_del_child_other n m l : n <> m -> assoc n (del_child m l) = assoc n l.
+Proof.
+  intro H. induction l as [|[k t] l IH]; simpl; auto.
+  destruct (name_eqbP m k) as [->|Hmk]; simpl.
+  - destruct (name_eqbP n k); congruence.
+  - rewrite IH. reflexivity.
+Qed.
+
+Lemma assoc_In n l c : assoc n l = Some c -> In n (map fst l).
+Proof.
+  induction l as [|[k t] l IH]; simpl; [discriminate|].
+  destruct (name_eqbP n k) as [->|H]; auto.
+Qed.
+
+Lemma assoc_notin n l : ~ In n (map fst l) -> assoc n l = None.
+Proof.
+  induction l as [|[k t] l IH]; simpl; auto. intro H.
+  destruct (name_eqbP n k) as [->|Hn]; [tauto|]. apply IH. tauto.
+Qed.
+
+Lemma assoc_del_child_same n l : NoDup (map fst l) -> assoc n (del_child n l) = None.
+Proof.
+  induction l as [|[k t] l IH]; simpl; auto. intro H. inversion H; subst.
+  destruct (name_eqbP n k) as [->|Hn].
+  - apply assoc_notin. assumption.
+  - simpl. destruct (name_eqbP n k); [contradiction|]. auto.
+Qed.
+
+(* ================================================================== *)
+(* prefixes                                                             *)
+
+Definition is_prefix (q p : list name) : bool :=
+  match strip_prefix q p with Some _ => true | None => false end.
+
+Lemma strip_prefix_app p r : strip_prefix p (p ++ r) = Some r.
+Proof. induction p as [|a p IH]; simpl; auto. rewrite name_eqb_refl. exact IH. Qed.
+
+Lemma strip_prefix_Some p q r : strip_prefix p q = Some r -> q = p ++ r.
+Proof.
+  revert q; induction p as [|a p IH]; intros q; simpl.
+  - intro H; inversion H; reflexivity.
+  - destruct q as [|b q]; [discriminate|].
+    destruct (name_eqbP a b) as [->|]; [|discriminate].
+    intro H. apply IH in H. subst. reflexivity.
+Qed.
+
+Lemma is_prefix_app p r : is_prefix p (p ++ r) = true.
+Proof. unfold is_prefix. rewrite strip_prefix_app. reflexivity. Qed.
+
+Lemma is_prefix_refl p : is_prefix p p = true.
+Proof. rewrite <- (app_nil_r p) at 2. apply is_prefix_app. Qed.
+
+Lemma is_prefix_true q p : is_prefix q p = true -> exists r, p = q ++ r.
+Proof.
+  unfold is_prefix. destruct (strip_prefix q p) eqn:E; [|discriminate].
+  intros _. exists l. apply strip_prefix_Some. assumption.
+Qed.
+
+Lemma is_prefix_nil p : is_prefix [] p = true.
+Proof. reflexivity. Qed.
+
+Lemma is_prefix_cons a q b p :
+  is_prefix (a :: q) (b :: p) = name_eqb a b && is_prefix q p.
+Proof. unfold is_prefix. simpl. destruct (name_eqb a b); reflexivity. Qed.
+
+Lemma is_prefix_trans a b c : is_prefix a b = true -> is_prefix b c = true -> is_prefix a c = true.
+Proof.
+  intros H1 H2. apply is_prefix_true in H1 as [r1 ->]. apply is_prefix_true in H2 as [r2 ->].
+  rewrite <- app_assoc. apply is_prefix_app.
+Qed.
+
+(* ================================================================== *)
+(* lookup / update_at: the algebra of path-indexed updates               *)
+
+Definition sub_or (t : tree) (p : list name) : tree :=
+  match lookup t p with Some s => s | None => Dir [] end.
+
+Lemma lookup_app t p r : lookup t (p ++ r) = match lookup t p with Some s => lookup s r | None => None end.
+Proof.
+  revert t; induction p as [|n p IH]; intros t; simpl; auto.
+  destruct t as [c|ch]; auto. destruct (assoc n ch); auto.
+Qed.
+
+Lemma lookup_empty_dir p : p <> [] -> lookup (Dir []) p = None.
+Proof. destruct p; [congruence|reflexivity]. Qed.
+
+Lemma sub_or_empty p : sub_or (Dir []) p = Dir [].
+Proof. unfold sub_or. destruct p; reflexivity. Qed.
+
+Lemma sub_or_cons t n p : sub_or t (n :: p) = sub_or (child_or n (as_dir t)) p.
+Proof.
+  unfold sub_or, child_or. simpl. destruct t as [c|ch]; simpl.
+  - destruct p; reflexivity.
+  - destruct (assoc n ch); [reflexivity|]. destruct p; reflexivity.
+Qed.
+
+Lemma lookup_update_same t p f : lookup (update_at t p f) p = Some (f (sub_or t p)).
+Proof.
+  revert t; induction p as [|n p IH]; intros t.
+  - reflexivity.
+  - simpl. rewrite assoc_set_child, name_eqb_refl, IH, sub_or_cons. reflexivity.
+Qed.
+
+Lemma update_at_ext t p f g : (forall s, f s = g s) -> update_at t p f = update_at t p g.
+Proof. intro H. revert t; induction p as [|n p IH]; intros t; simpl; [apply H|]. rewrite IH. reflexivity. Qed.
+
+Lemma update_at_app t p q f : update_at t (p ++ q) f = update_at t p (fun s => update_at s q f).
+Proof. revert t; induction p as [|n p IH]; intros t; simpl; auto. rewrite IH. reflexivity. Qed.
+
+Lemma update_at_twice t p f g : update_at (update_at t p f) p g = update_at t p (fun s => g (f s)).
+Proof.
+  revert t; induction p as [|n p IH]; intros t; simpl; auto.
+  rewrite child_or_set_child, set_child_twice, IH. reflexivity.
+Qed.
+
+Lemma update_at_id t p f s : lookup t p = Some s -> f s = s -> update_at t p f = t.
+Proof.
+  revert t; induction p as [|n p IH]; intros t; simpl.
+  - intros H E; inversion H; subst; auto.
+  - destruct t as [c|ch]; [discriminate|]. simpl. destruct (assoc n ch) as [c|] eqn:A; [|discriminate].
+    intros H E. unfold child_or. rewrite A. rewrite (IH c H E). rewrite set_child_same; auto.
+Qed.
+
+(* what an observer sees after an update: unconditional *)
+Lemma look_update_at t p f q :
+  look (update_at t p f) q =
+  match strip_prefix p q with
+  | Some r => look (f (sub_or t p)) r
+  | None => if is_prefix q p then Some EDir else look t q
+  end.
+Proof.
+  revert t q; induction p as [|n p IH]; intros t q.
+  - reflexivity.
+  - destruct q as [|m q].
+    + reflexivity.
+    + simpl strip_prefix. rewrite is_prefix_cons. unfold look at 1. simpl lookup.
+      rewrite assoc_set_child. rewrite (name_eqb_sym m n).
+      destruct (name_eqbP n m) as [->|Hnm]; simpl andb.
+      * change (option_map entry_of (lookup (update_at (child_or m (as_dir t)) p f) q))
+          with (look (update_at (child_or m (as_dir t)) p f) q).
+        rewrite IH. rewrite <- sub_or_cons.
+        destruct (strip_prefix p q) eqn:S; [reflexivity|].
+        destruct (is_prefix q p) eqn:P; [reflexivity|].
+        unfold look, child_or. simpl. destruct t as [c|ch]; simpl.
+        -- destruct q; [discriminate P|reflexivity].
+        -- destruct (assoc m ch); [reflexivity|]. destruct q; [discriminate P|reflexivity].
+      * unfold look. simpl. destruct t as [c|ch]; simpl; reflexivity.
+Qed.
+
+Lemma look_nil t : look t [] = Some (entry_of t).
+Proof. reflexivity. Qed.
+
+Lemma look_app t p r : look t (p ++ r) = match lookup t p with Some s => look s r | None => None end.
+Proof. unfold look. rewrite lookup_app. destruct (lookup t p); reflexivity. Qed.
+
+Lemma look_file_below c r : r <> [] -> look (File c) r = None.
+Proof. destruct r; [congruence|reflexivity]. Qed.
+
+Lemma look_dirify s r : r <> [] -> look (dirify s) r = look s r.
+Proof. destruct r; [congruence|]. destruct s; reflexivity. Qed.
+
+Lemma look_ensure_dir t p q :
+  look (ensure_dir t p) q = if is_prefix q p then Some EDir else look t q.
+Proof.
+  unfold ensure_dir. rewrite look_update_at.
+  destruct (strip_prefix p q) as [r|] eqn:S; [|reflexivity].
+  apply strip_prefix_Some in S. subst q. destruct r as [|m r].
+  - rewrite app_nil_r, is_prefix_refl. reflexivity.
+  - replace (is_prefix (p ++ m :: r) p) with false.
+    + rewrite look_dirify by discriminate. rewrite look_app. unfold sub_or.
+      destruct (lookup t p); reflexivity.
+    + symmetry. destruct (is_prefix (p ++ m :: r) p) eqn:E; auto.
+      apply is_prefix_true in E as [x E]. rewrite <- app_assoc in E.
+      rewrite <- (app_nil_r p) in E at 1. apply app_inv_head in E. discriminate.
+Qed.
+
+Fixpoint path_eqb (p q : list name) : bool :=
+  match p, q with
+  | [], [] => true
+  | a :: p', b :: q' => name_eqb a b && path_eqb p' q'
+  | _, _ => false
+  end.
+
+Lemma path_eqb_eq p q : path_eqb p q = true <-> p = q.
+Proof.
+  revert q; induction p as [|a p IH]; intros [|b q]; simpl; split; intro H; try discriminate; auto.
+  - apply andb_true_iff in H as [H1 H2]. apply name_eqb_eq in H1. apply IH in H2. congruence.
+  - inversion H; subst. rewrite name_eqb_refl. apply IH. reflexivity.
+Qed.
+
+Lemma look_write_at t p c q :
+  look (write_at t p c) q =
+  match strip_prefix p q with
+  | Some [] => Some (EFile c)
+  | Some (_ :: _) => None
+  | None => if is_prefix q p then Some EDir else look t q
+  end.
+Proof.
+  unfold write_at. rewrite look_update_at. destruct (strip_prefix p q) as [[|m r]|]; reflexivity.
+Qed.
+
+(* ================================================================== *)
+(* paths as the server resolves them                                     *)
+
+Definition base (cwd : list name) (ab : bool) : list name := if ab then [] else cwd.
+
+Lemma resolve_base cwd p : resolve cwd p = base cwd (p_abs p) ++ p_parts p.
+Proof. unfold resolve, base. destruct (p_abs p); reflexivity. Qed.
+
+Lemma resolve_join cwd p r : resolve cwd (pjoin p (mkp false r)) = resolve cwd p ++ r.
+Proof.
+  unfold resolve, pjoin; simpl. destruct (p_abs p); simpl; [reflexivity|].
+  rewrite app_assoc. reflexivity.
+Qed.
+
+Lemma resolve_parent cwd p :
+  p_parts p <> [] -> resolve cwd (pparent p) = removelast (resolve cwd p).
+Proof.
+  intro H. unfold resolve, pparent; simpl. destruct (p_abs p); [reflexivity|].
+  rewrite removelast_app by assumption. reflexivity.
+Qed.
+
+Lemma look_None t p : look t p = None <-> lookup t p = None.
+Proof. unfold look. destruct (lookup t p); simpl; split; congruence. Qed.
+
+Lemma look_dir t p : look t p = Some EDir <-> exists ch, lookup t p = Some (Dir ch).
+Proof.
+  unfold look. destruct (lookup t p) as [[c|ch]|]; simpl; split; try congruence.
+  - intros [ch H]; congruence.
+  - intros _. eauto.
+  - intros [ch H]; congruence.
+Qed.
+
+Lemma look_file t p c : look t p = Some (EFile c) <-> lookup t p = Some (File c).
+Proof.
+  unfold look. destruct (lookup t p) as [[c'|ch]|]; simpl; split; congruence.
+Qed.
+
+Lemma root_is_dir fs cwd ch : lookup fs cwd = Some (Dir ch) -> exists ch0, fs = Dir ch0.
+Proof.
+  destruct fs as [c|ch0]; [|eauto]. destruct cwd; simpl; intro H; congruence.
+Qed.
+
+Lemma lookup_base fs cwd ch ab :
+  lookup fs cwd = Some (Dir ch) -> exists chb, lookup fs (base cwd ab) = Some (Dir chb).
+Proof.
+  intro H. destruct ab; simpl; [|eauto]. destruct (root_is_dir _ _ _ H) as [ch0 ->]. eauto.
+Qed.
+
+Lemma blocked_true t p :
+  blocked t p = true -> exists q r c, p = q ++ r /\ r <> [] /\ lookup t q = Some (File c).
+Proof.
+  revert t; induction p as [|n p IH]; intros t; simpl; [discriminate|].
+  destruct t as [c|ch].
+  - intros _. exists [], (n :: p), c. repeat split; congruence.
+  - destruct (assoc n ch) as [s|] eqn:A; [|discriminate].
+    intro H. apply IH in H as (q & r & c & -> & Hr & L).
+    exists (n :: q), r, c. repeat split; auto. simpl. rewrite A. exact L.
+Qed.
+
+Lemma proper_prefix_snoc (q r x : list name) n :
+  q ++ r = x ++ [n] -> r <> [] -> is_prefix q x = true.
+Proof.
+  intros E Hr. destruct (exists_last Hr) as (r' & m & ->).
+  rewrite app_assoc in E. apply app_inj_tail in E as [<- _]. apply is_prefix_app.
+Qed.
+
+(* ================================================================== *)
+(* make_directory is mkdir -p                                            *)
+
+Lemma ensure_dir_exists t p ch : lookup t p = Some (Dir ch) -> ensure_dir t p = t.
+Proof. intro H. apply (update_at_id t p dirify (Dir ch)); auto. Qed.
+
+Lemma update_after_ensure t x n r f :
+  update_at (ensure_dir t x) (x ++ n :: r) f = update_at t (x ++ n :: r) f.
+Proof.
+  unfold ensure_dir. rewrite update_at_app, update_at_twice, update_at_app.
+  apply update_at_ext. intro s. reflexivity.
+Qed.
+
+Lemma ensure_dir_absorb t x n : ensure_dir (ensure_dir t x) (x ++ [n]) = ensure_dir t (x ++ [n]).
+Proof. unfold ensure_dir at 1. rewrite update_after_ensure. reflexivity. Qed.
+
+Lemma lookup_ensure_dir_below t x n r : lookup (ensure_dir t x) (x ++ n :: r) = lookup t (x ++ n :: r).
+Proof.
+  rewrite !lookup_app. unfold ensure_dir. rewrite lookup_update_same. unfold sub_or.
+  destruct (lookup t x) as [[c|ch]|]; simpl; reflexivity.
+Qed.
+
+Lemma mkd_all_app cwd l1 l2 fs : mkd_all cwd (l1 ++ l2) fs = bind (mkd_all cwd l1 fs) (mkd_all cwd l2).
+Proof.
+  revert fs; induction l1 as [|p l1 IH]; intros fs; simpl; [reflexivity|].
+  destruct (r_mkd cwd fs p); simpl; auto.
+Qed.
+
+Definition no_file_on (fs : tree) (a : list name) : Prop :=
+  forall q, is_prefix q a = true -> forall c, lookup fs q <> Some (File c).
+
+Lemma no_file_on_prefix fs a b : is_prefix a b = true -> no_file_on fs b -> no_file_on fs a.
+Proof. intros P H q Hq. apply H. eapply is_prefix_trans; eauto. Qed.
+
+Lemma is_prefix_snoc_self (x : list name) n : is_prefix (x ++ [n]) x = false.
+Proof.
+  destruct (is_prefix (x ++ [n]) x) eqn:E; auto.
+  apply is_prefix_true in E as [r E]. rewrite <- app_assoc in E.
+  rewrite <- (app_nil_r x) in E at 1. apply app_inv_head in E. discriminate.
+Qed.
+
+Lemma md_exact cwd fs ab chb :
+  lookup fs (base cwd ab) = Some (Dir chb) ->
+  forall rparts,
+    no_file_on fs (base cwd ab ++ rev rparts) ->
+    mkd_all cwd (rev (md_need cwd fs ab rparts)) fs = Ok (ensure_dir fs (base cwd ab ++ rev rparts)).
+Proof.
+  intros Hb. induction rparts as [|n up IH]; intro NF.
+  - simpl. rewrite app_nil_r. rewrite (ensure_dir_exists _ _ _ Hb). reflexivity.
+  - simpl rev in *. cbn [md_need]. unfold c_exists, r_stat. rewrite resolve_base. cbn [p_abs p_parts rev].
+    destruct (lookup fs (base cwd ab ++ rev up ++ [n])) as [s|] eqn:L; cbn [option_map].
+    + destruct s as [c|ch]; [exfalso; eapply NF; [apply is_prefix_refl|exact L]|].
+      simpl. rewrite (ensure_dir_exists _ _ _ L). reflexivity.
+    + cbn [rev]. rewrite mkd_all_app. rewrite IH.
+      2:{ eapply no_file_on_prefix; [|exact NF]. rewrite app_assoc. apply is_prefix_app. }
+      cbn [bind mkd_all]. unfold r_mkd. rewrite resolve_base. cbn [p_abs p_parts].
+      set (x := base cwd ab ++ rev up). rewrite app_assoc. fold x. rewrite app_assoc in L. fold x in L.
+      assert (L1 : lookup (ensure_dir fs x) (x ++ [n]) = None).
+      { rewrite lookup_ensure_dir_below. exact L. }
+      rewrite L1.
+      destruct (blocked (ensure_dir fs x) (x ++ [n])) eqn:B.
+      * exfalso. apply blocked_true in B as (q & r & c & E & Hr & Lq).
+        symmetry in E. pose proof (proper_prefix_snoc _ _ _ _ E Hr) as P.
+        pose proof (look_ensure_dir fs x q) as LK. rewrite P in LK.
+        apply look_dir in LK as [ch LK]. congruence.
+      * cbn [bind]. rewrite ensure_dir_absorb. reflexivity.
+Qed.
+
+Lemma make_directory_exact cwd fs p chc :
+  lookup fs cwd = Some (Dir chc) ->
+  no_file_on fs (resolve cwd p) ->
+  make_directory cwd fs p = Ok (ensure_dir fs (resolve cwd p)).
+Proof.
+  intros Hc NF. destruct (lookup_base fs cwd chc (p_abs p) Hc) as [chb Hb].
+  unfold make_directory. rewrite resolve_base in *.
+  rewrite <- (rev_involutive (p_parts p)) at 2.
+  apply (md_exact cwd fs (p_abs p) chb Hb). rewrite rev_involutive. exact NF.
+Qed.
+
+(* ================================================================== *)
+(* the file branch of upload                                             *)
+
+Lemma match_nonnil {A B} (a : list A) (u v : B) :
+  a <> [] -> match a with [] => u | _ :: _ => v end = v.
+Proof. destruct a; congruence. Qed.
+
+Lemma r_stor_after_ensure cwd fs x n c p :
+  resolve cwd p = x ++ [n] ->
+  (forall ch, lookup fs (x ++ [n]) <> Some (Dir ch)) ->
+  r_stor cwd (ensure_dir fs x) p c = Ok (write_at fs (x ++ [n]) c).
+Proof.
+  intros E ND. unfold r_stor. rewrite E.
+  rewrite match_nonnil by (destruct x; discriminate).
+  rewrite removelast_last.
+  unfold ensure_dir at 1. rewrite lookup_update_same. cbn [dirify].
+  rewrite lookup_ensure_dir_below.
+  unfold write_at. rewrite update_after_ensure.
+  destruct (lookup fs (x ++ [n])) as [[c0|ch]|] eqn:L; try reflexivity.
+  exfalso. eapply ND. reflexivity.
+Qed.
+
+Lemma upload_file_exact cwd fs dst' c chc :
+  lookup fs cwd = Some (Dir chc) ->
+  p_parts dst' <> [] ->
+  no_file_on fs (removelast (resolve cwd dst')) ->
+  (forall ch, lookup fs (resolve cwd dst') <> Some (Dir ch)) ->
+  upload_file cwd fs dst' c = Ok (write_at fs (resolve cwd dst') c).
+Proof.
+  intros Hc Hp NF ND. unfold upload_file.
+  rewrite (make_directory_exact cwd fs (pparent dst') chc Hc).
+  2:{ rewrite resolve_parent by assumption. exact NF. }
+  cbn [bind]. rewrite resolve_parent by assumption.
+  assert (Ha : resolve cwd dst' <> []).
+  { rewrite resolve_base. intro E. apply app_eq_nil in E as [_ E]. contradiction. }
+  destruct (exists_last Ha) as (x & n & E). rewrite E in *. rewrite removelast_last.
+  apply r_stor_after_ensure; assumption.
+Qed.
+
+(* ================================================================== *)
+(* induction on rose trees, sizes, well-formedness                       *)
+
+Section TreeInd.
+  Variable P : tree -> Prop.
+  Hypothesis HF : forall c, P (File c).
+  Hypothesis HD : forall ch, Forall (fun nt => P (snd nt)) ch -> P (Dir ch).
+  Fixpoint tree_ind2 (t : tree) : P t :=
+    match t with
+    | File c => HF c
+    | Dir ch =>
+        HD ch ((fix go (l : list (name * tree)) : Forall (fun nt => P (snd nt)) l :=
+                  match l with
+                  | [] => Forall_nil _
+                  | nt :: r => Forall_cons nt (tree_ind2 (snd nt)) (go r)
+                  end) ch)
+    end.
+End TreeInd.
+
+Definition sizes (ch : list (name * tree)) : nat := list_sum (map (fun nt => tree_size (snd nt)) ch).
+
+Lemma tree_size_dir ch : tree_size (Dir ch) = S (sizes ch).
+Proof.
+  simpl. f_equal. unfold sizes. induction ch as [|[n c] ch IH]; simpl; auto.
+Qed.
+
+Fixpoint wf_tree (t : tree) : Prop :=
+  match t with
+  | File _ => True
+  | Dir ch =>
+      NoDup (map fst ch) /\
+      (fix go (l : list (name * tree)) : Prop :=
+         match l with [] => True | nt :: r => wf_tree (snd nt) /\ go r end) ch
+  end.
+
+Lemma wf_tree_dir ch : wf_tree (Dir ch) <-> NoDup (map fst ch) /\ Forall (fun nt => wf_tree (snd nt)) ch.
+Proof.
+  simpl. split; intros [H1 H2]; split; auto.
+  - induction ch as [|nt ch IH]; constructor; try tauto. apply IH; [inversion H1; auto | tauto].
+  - induction ch as [|nt ch IH]; auto. inversion H2; subst. split; auto. apply IH; auto. inversion H1; auto.
+Qed.
+
+Lemma assoc_In_pair n l c : assoc n l = Some c -> In (n, c) l.
+Proof.
+  induction l as [|[k t] l IH]; simpl; [discriminate|].
+  destruct (name_eqbP n k) as [->|H]; intro E; [inversion E; auto|auto].
+Qed.
+
+Lemma wf_child ch n c : wf_tree (Dir ch) -> assoc n ch = Some c -> wf_tree c.
+Proof.
+  intros W A. apply wf_tree_dir in W as [_ F]. rewrite Forall_forall in F.
+  apply (F (n, c)). apply assoc_In_pair. assumption.
+Qed.
+
+Lemma wf_lookup t p s : wf_tree t -> lookup t p = Some s -> wf_tree s.
+Proof.
+  revert t; induction p as [|n p IH]; intros t W; simpl.
+  - intro H; inversion H; subst; auto.
+  - destruct t as [c|ch]; [discriminate|]. destruct (assoc n ch) as [c|] eqn:A; [|discriminate].
+    apply IH. eapply wf_child; eauto.
+Qed.
+
+(* ================================================================== *)
+(* remove                                                                *)
+
+Lemma remove_at_as_update fs a n ch :
+  lookup fs a = Some (Dir ch) ->
+  remove_at fs (a ++ [n]) = update_at fs a (fun _ => Dir (del_child n ch)).
+Proof.
+  revert fs; induction a as [|m a IH]; intros fs; simpl.
+  - intro H; inversion H; subst. reflexivity.
+  - destruct fs as [c|ch0]; [discriminate|]. destruct (assoc m ch0) as [c1|] eqn:A; [|discriminate].
+    intro L. rewrite match_nonnil by (destruct a; discriminate).
+    simpl. unfold child_or. rewrite A. rewrite (IH c1 L). reflexivity.
+Qed.
+
+Lemma del_child_set_child n v ch s : assoc n ch = Some s -> del_child n (set_child n v ch) = del_child n ch.
+Proof.
+  induction ch as [|[k t] ch IH]; simpl; [discriminate|].
+  destruct (name_eqbP n k) as [->|H]; simpl.
+  - rewrite name_eqb_refl. reflexivity.
+  - destruct (name_eqbP n k); [contradiction|]. intro A. rewrite IH; auto.
+Qed.
+
+Lemma update_at_cons t n r f :
+  update_at t (n :: r) f = Dir (set_child n (update_at (child_or n (as_dir t)) r f) (as_dir t)).
+Proof. reflexivity. Qed.
+
+Lemma remove_at_cons2 ch n m r :
+  remove_at (Dir ch) (n :: m :: r) =
+  match assoc n ch with
+  | Some c => Dir (set_child n (remove_at c (m :: r)) ch)
+  | None => Dir ch
+  end.
+Proof. reflexivity. Qed.
+
+Lemma remove_at_update_same fs a f s :
+  lookup fs a = Some s -> a <> [] -> remove_at (update_at fs a f) a = remove_at fs a.
+Proof.
+  revert fs; induction a as [|n a IH]; intros fs L Ha; [congruence|].
+  simpl in L. destruct fs as [c|ch]; [discriminate|]. destruct (assoc n ch) as [c1|] eqn:A; [|discriminate].
+  destruct a as [|m a].
+  - simpl. erewrite del_child_set_child; eauto.
+  - rewrite update_at_cons. cbn [as_dir]. rewrite !remove_at_cons2. rewrite assoc_set_child, name_eqb_refl, A.
+    unfold child_or. rewrite A. rewrite set_child_twice. rewrite (IH c1 L) by discriminate. reflexivity.
+Qed.
+
+Lemma look_remove_at_other fs a q : is_prefix a q = false -> look (remove_at fs a) q = look fs q.
+Proof.
+  revert fs q; induction a as [|n a IH]; intros fs q P; [discriminate P|].
+  destruct fs as [c|ch]; [reflexivity|].
+  destruct q as [|m q].
+  - simpl. destruct a; [reflexivity|]. destruct (assoc n ch); reflexivity.
+  - rewrite is_prefix_cons in P. destruct a as [|k a].
+    + unfold look. simpl. destruct (name_eqbP n m) as [->|Hnm]; [discriminate P|].
+      rewrite assoc_del_child_other by congruence. reflexivity.
+    + rewrite remove_at_cons2. destruct (assoc n ch) as [c1|] eqn:A; [|reflexivity].
+      unfold look. simpl. rewrite assoc_set_child. rewrite (name_eqb_sym m n).
+      destruct (name_eqbP n m) as [->|Hnm]; simpl in P.
+      * rewrite A. apply (IH c1 q P).
+      * reflexivity.
+Qed.
+
+Lemma look_remove_at_gone fs a s r :
+  wf_tree fs -> lookup fs a = Some s -> a <> [] -> look (remove_at fs a) (a ++ r) = None.
+Proof.
+  revert fs; induction a as [|n a IH]; intros fs W L Ha; [congruence|].
+  simpl in L. destruct fs as [c|ch]; [discriminate|]. destruct (assoc n ch) as [c1|] eqn:A; [|discriminate].
+  destruct a as [|m a].
+  - unfold look. simpl. rewrite assoc_del_child_same; [reflexivity|]. apply wf_tree_dir in W. tauto.
+  - rewrite remove_at_cons2. rewrite A. unfold look. rewrite <- app_comm_cons. cbn [lookup].
+    rewrite assoc_set_child, name_eqb_refl.
+    apply (IH c1); [eapply wf_child; eauto|assumption|discriminate].
+Qed.
+
+Definition remove_each (f : nat) (cwd : list name) (p : ppath) :=
+  fix each (l : list (name * bool)) (fs0 : tree) : res tree :=
+    match l with
+    | [] => Ok fs0
+    | e :: r => bind (remove f cwd fs0 (pjoin p (mkp false [fst e]))) (each r)
+    end.
+
+Lemma remove_S f cwd fs p :
+  remove (S f) cwd fs p =
+  match r_stat cwd fs p with
+  | None => Ok fs
+  | Some false => r_dele cwd fs p
+  | Some true =>
+      bind (r_list cwd fs p) (fun ents =>
+      bind (remove_each f cwd p ents fs) (fun fs1 => r_rmd cwd fs1 p))
+  end.
+Proof. reflexivity. Qed.
+
+Lemma remove_exact cwd t :
+  forall fuel fs p,
+    (tree_size t <= fuel)%nat ->
+    lookup fs (resolve cwd p) = Some t ->
+    resolve cwd p <> [] ->
+    remove fuel cwd fs p = Ok (remove_at fs (resolve cwd p)).
+Proof.
+  induction t as [c|ch IHch] using tree_ind2; intros fuel fs p Hf L Ha.
+  - destruct fuel as [|f]; [simpl in Hf; lia|]. rewrite remove_S. unfold r_stat. rewrite L. simpl.
+    unfold r_dele. rewrite L. reflexivity.
+  - rewrite tree_size_dir in Hf. destruct fuel as [|f]; [lia|]. rewrite remove_S.
+    unfold r_stat. rewrite L. simpl. unfold r_list. rewrite L. cbn [bind].
+    set (a := resolve cwd p) in *.
+    assert (Each : forall rest, (sizes rest <= f)%nat -> Forall (fun nt =>
+                forall fuel fs p, (tree_size (snd nt) <= fuel)%nat ->
+                  lookup fs (resolve cwd p) = Some (snd nt) -> resolve cwd p <> [] ->
+                  remove fuel cwd fs p = Ok (remove_at fs (resolve cwd p))) rest ->
+              remove_each f cwd p (map (fun nt => (fst nt, is_dir (snd nt))) rest)
+                          (update_at fs a (fun _ => Dir rest))
+              = Ok (update_at fs a (fun _ => Dir []))).
+    { induction rest as [|[n c] rest IHr]; intros Hs F; [reflexivity|].
+      inversion F as [|? ? Hc Fr]; subst. cbn [map remove_each fst snd].
+      unfold sizes in Hs. simpl in Hs. fold (sizes rest) in Hs.
+      set (fsi := update_at fs a (fun _ => Dir ((n, c) :: rest))).
+      assert (Li : lookup fsi a = Some (Dir ((n, c) :: rest))) by (apply lookup_update_same).
+      rewrite (Hc f fsi (pjoin p (mkp false [n]))).
+      - rewrite resolve_join. fold a. rewrite (remove_at_as_update _ _ _ _ Li).
+        cbn [bind del_child]. rewrite name_eqb_refl. unfold fsi. rewrite update_at_twice.
+        apply IHr; [lia|assumption].
+      - simpl; lia.
+      - rewrite resolve_join. fold a. rewrite lookup_app, Li. simpl. rewrite name_eqb_refl. reflexivity.
+      - rewrite resolve_join. destruct (resolve cwd p); discriminate. }
+    assert (E0 : update_at fs a (fun _ => Dir ch) = fs) by (eapply update_at_id; eauto).
+    rewrite <- E0 at 1. rewrite Each; [|lia|assumption].
+    cbn [bind]. unfold r_rmd. fold a. rewrite match_nonnil by assumption.
+    rewrite lookup_update_same. rewrite (remove_at_update_same _ _ _ _ L Ha). reflexivity.
+Qed.
+
 (* names used by the witnesses: "foo", "x", "y", "a" *)
 Definition n_foo : name := [102; 111; 111].
 Definition n_x : name := [120].
